@@ -19,11 +19,21 @@
      output 0..K-1 (needs room), a timer of positive duration or a return - and no token receive; this covers
      Unfold, Emit and Throttling with ops >= 1 or interval > 0 (C06_generator_stages_terminate); without a
      blocker a generator does spin (pacer_without_blocker_spins in Pipe/PoolVariantStages.v).
+   - PROGRESS (C06_only_backpressure_blocks, C06_stages_only_backpressure_blocks): for every one-goroutine sequential
+     stage whose code consists of sends, plain sends, polls of Done and returns (Map, FMap, Filter, Partition, Take,
+     TakeWhile, ForEach/Void, Fold) and every ordering of the environment's moves, whenever no internal step is
+     enabled - cancelled or not - the goroutine has returned, or is parked in `range in` on an EMPTY OPEN input and
+     then accepts the environment's next send at once (also on an unbuffered input), or is blocked in a send on an
+     output that is open and has no room.  Only back-pressure from a consumer (of the value channel, or of the
+     error channel under a plain send) keeps a stage from taking its input: it never waits for a gate, a token or a
+     timer, never holds back an element while every output has room (C06_room_nothing_held), after cancel is held
+     only by a plain send (C06_cancelled_rest), and - unless cancelled - returns only at the end of its input, at
+     a `return` of its own code, or before the loop (C06_done_why).
    That runs reach the quiescent states (the scheduler lets enabled goroutines run) is scheduler fairness. *)
 From Coq Require Import List ZArith.
 From Golem Require Import Base.Lists Pipe.Pool Pipe.Stages Pipe.PoolSteps Pipe.PoolSafe Pipe.PoolClosed Pipe.PoolLive
      Pipe.PoolSimple Pipe.PoolSeq Pipe.PoolStages Pipe.PoolStages2 Pipe.PoolErr Pipe.PoolMultiStages Pipe.PoolGen Pipe.PoolCancel
-     Pipe.PoolVariant Pipe.PoolVariantGen Pipe.PoolVariantStages.
+     Pipe.PoolVariant Pipe.PoolVariantGen Pipe.PoolVariantStages Pipe.PoolEffects Pipe.PoolStop Pipe.PoolSeqServed.
 Import ListNotations.
 Open Scope Z_scope.
 
@@ -203,3 +213,107 @@ Theorem C06_generator_without_blocker_spins :
   let c := throttle_stage 0 0 [] [] in ~ Acc (fun s' s0 => istep c s0 s') (init c).
 Proof. exact pacer_without_blocker_spins. Qed.
 Print Assumptions C06_generator_without_blocker_spins.
+
+(* PROGRESS: ONLY BACK-PRESSURE BLOCKS A SEQUENTIAL STAGE.  [seq_stage pl eof pr init cl icaps ocaps]: one goroutine
+   `if !pr(init) {return}; for a = range in { pl }; eof` with deferred closes of [cl]; [simple_cfg]: the plans
+   consist of select-sends, plain sends, polls of Done and returns.  Whenever no internal step is enabled
+   ([quiescent]) - in every reachable state, whatever the environment did in whatever order, cancelled or not -
+   the goroutine
+   (a) has returned, or
+   (b) is parked in `range in` on an empty open input, and the environment's next send is accepted at once (also
+       on an unbuffered input: the parked goroutine is the rendezvous partner), or
+   (c) is blocked in a send on an output that is open and has no room. *)
+Theorem C06_only_backpressure_blocks :
+  forall (pl : Z -> Z -> list act * Z) (eof : Z -> list act) (pr : Z -> bool) (init : Z) (cl icaps ocaps : list nat),
+  let c := seq_stage pl eof pr init cl icaps ocaps in
+  wf_cfg c -> simple_cfg c ->
+  forall s : state, reachable c s -> quiescent c s ->
+    wc (ws s 0) = WDone \/
+    (wc (ws s 0) = WRecv /\ cbuf (ins s 0) = [] /\ cclosed (ins s 0) = false /\
+     forall x, step c s (ESent 0 x) <> None) \/
+    (exists e a k v rest, wc (ws s 0) = WRun e (a :: rest) /\ sends_on a k v /\
+                          has_room (outs s k) = false /\ cclosed (outs s k) = false).
+Proof. exact seq_only_backpressure_blocks. Qed.
+Print Assumptions C06_only_backpressure_blocks.
+
+(* ... which holds of the sequential stages of pipe/pipe.go, for every user function, capacity and Take count *)
+Theorem C06_stages_only_backpressure_blocks :
+  forall (f : Z -> res) (fa : Z -> list Z * option Z) (p : Z -> bool) (try : bool) (n : Z)
+         (combine : Z -> Z -> Z) (empty : Z) (icaps ocaps : list nat) (c : cfg),
+  In c [map_cfg f try icaps ocaps; fmap_cfg fa try icaps ocaps; filter_cfg p icaps ocaps;
+        partition_cfg p icaps ocaps; take_cfg n icaps ocaps; takewhile_cfg p icaps ocaps;
+        visit_cfg icaps ocaps; fold_cfg combine empty icaps ocaps] ->
+  forall s : state, reachable c s -> quiescent c s ->
+    wc (ws s 0) = WDone \/
+    (wc (ws s 0) = WRecv /\ cbuf (ins s 0) = [] /\ cclosed (ins s 0) = false /\
+     forall x, step c s (ESent 0 x) <> None) \/
+    (exists e a k v rest, wc (ws s 0) = WRun e (a :: rest) /\ sends_on a k v /\
+                          has_room (outs s k) = false /\ cclosed (outs s k) = false).
+Proof. exact stages_only_backpressure_blocks_all. Qed.
+Print Assumptions C06_stages_only_backpressure_blocks.
+
+(* hence, when the consumers keep up (room in every output), nothing that was handed over is held back: the
+   goroutine has returned, or is parked on an EMPTY open input having taken everything, and takes the next send *)
+Theorem C06_room_nothing_held :
+  forall (pl : Z -> Z -> list act * Z) (eof : Z -> list act) (pr : Z -> bool) (init : Z) (cl icaps ocaps : list nat),
+  let c := seq_stage pl eof pr init cl icaps ocaps in
+  wf_cfg c -> simple_cfg c ->
+  forall s : state, reachable c s -> quiescent c s -> (forall k, has_room (outs s k) = true) ->
+    wc (ws s 0) = WDone \/
+    (wc (ws s 0) = WRecv /\ cbuf (ins s 0) = [] /\ cclosed (ins s 0) = false /\
+     wtaken (ws s 0) = sent s 0 /\ forall x, step c s (ESent 0 x) <> None).
+Proof. exact seq_room_nothing_held. Qed.
+Print Assumptions C06_room_nothing_held.
+
+(* after cancel a select-send never holds the goroutine (its Done arm fires): what is left of case (c) is a plain
+   send - `exx <- err` of Map/FMap under Lift, `done <- acc` of Fold *)
+Theorem C06_cancelled_rest :
+  forall (pl : Z -> Z -> list act * Z) (eof : Z -> list act) (pr : Z -> bool) (init : Z) (cl icaps ocaps : list nat),
+  let c := seq_stage pl eof pr init cl icaps ocaps in
+  wf_cfg c -> simple_cfg c ->
+  forall s : state, reachable c s -> cancelled s = true -> quiescent c s ->
+    wc (ws s 0) = WDone \/
+    (wc (ws s 0) = WRecv /\ cbuf (ins s 0) = [] /\ cclosed (ins s 0) = false /\
+     forall x, step c s (ESent 0 x) <> None) \/
+    (exists e k v rest, wc (ws s 0) = WRun e (APlain k v :: rest) /\
+                        has_room (outs s k) = false /\ cclosed (outs s k) = false).
+Proof. exact seq_cancelled_rest. Qed.
+Print Assumptions C06_cancelled_rest.
+
+(* case (a) never happens "by itself": unless cancelled, the goroutine has returned only because its input was
+   closed and drained - and then it has taken everything handed over -, because its own code said `return`
+   ([stopped]: some plan of the elements taken contains a return - Take's count, TakeWhile's predicate, a failure
+   under Lift), or because it returned before the loop (Take with n <= 0) *)
+Theorem C06_done_why :
+  forall (pl : Z -> Z -> list act * Z) (eof : Z -> list act) (pr : Z -> bool) (init : Z) (cl icaps ocaps : list nat)
+         (s : state),
+  let c := seq_stage pl eof pr init cl icaps ocaps in
+  reachable c s -> cancelled s = false -> wc (ws s 0) = WDone ->
+    (weof (ws s 0) = true /\ cclosed (ins s 0) = true /\ cbuf (ins s 0) = [] /\ wtaken (ws s 0) = sent s 0) \/
+    stopped c 0 init (wtaken (ws s 0)) = true \/
+    (wtaken (ws s 0) = [] /\ pr init = false).
+Proof. exact seq_done_why. Qed.
+Print Assumptions C06_done_why.
+
+(* ForEach / Void send nothing: they are never blocked at all *)
+Theorem C06_visit_never_blocked : forall (icaps ocaps : list nat) (s : state),
+  let c := visit_cfg icaps ocaps in
+  reachable c s -> quiescent c s ->
+    wc (ws s 0) = WDone \/
+    (wc (ws s 0) = WRecv /\ cbuf (ins s 0) = [] /\ cclosed (ins s 0) = false /\
+     forall x, step c s (ESent 0 x) <> None).
+Proof. exact visit_never_blocked. Qed.
+Print Assumptions C06_visit_never_blocked.
+
+(* non-vacuity.  Map(x -> 2x+1), unbuffered input, unbuffered outputs, nobody receiving.  Initially the goroutine
+   is at rest in case (b) and the send of 5 is accepted; after it took 5 it is at rest in case (c): blocked in the
+   send of 11 on the open, room-less out 0, not cancelled *)
+Example C06_backpressure_example :
+  (quiescent ex_bp_cfg (init ex_bp_cfg) /\ wc (ws (init ex_bp_cfg) 0) = WRecv /\
+   step ex_bp_cfg (init ex_bp_cfg) (ESent 0 5) <> None) /\
+  reachable ex_bp_cfg ex_bp_state /\ quiescent ex_bp_cfg ex_bp_state /\
+  cancelled ex_bp_state = false /\ sent ex_bp_state 0 = [5] /\
+  wc (ws ex_bp_state 0) = WRun false [ASend 0 11] /\
+  has_room (outs ex_bp_state 0) = false /\ cclosed (outs ex_bp_state 0) = false.
+Proof. exact (conj ex_bp_init_parked (conj ex_bp_reachable (conj ex_bp_quiescent ex_bp_facts))). Qed.
+Print Assumptions C06_backpressure_example.
